@@ -52,7 +52,7 @@ Definition within (u : R) (k : nat) (t t' : R) : Prop :=
 (* ---- classes ---- *)
 Definition cls_nonneg (c : cls) : bool := match c with Pos | NonNeg => true | _ => false end.
 
-Definition half_up (k : nat) : nat := Nat.div2 (S k).       (* ceil (k / 2) *)
+Definition half_up (k : nat) : nat := (S k / 2)%nat.        (* ceil (k / 2) *)
 
 Definition rd := (nat * cls)%type.
 
@@ -167,3 +167,14 @@ Definition rdepth_name (f : string) (n : nat) : option nat :=
   | Some m => rdepth m n
   | None => None
   end.
+
+(* ---- the statement proved for each covered identifier ----
+   [sp] the published closed form (Spec/MetricSpec.v), [k n] the exponent for vectors of length n:
+   for every rounding of the standard model the rounded evaluation of the generated term is defined and
+   lies between (1-u)^k sp and (1+u)^k sp; in particular |fl - sp| <= ((1+u)^k - 1) sp. *)
+Definition rounding_bound (m : metric_ir) (sp : list R -> list R -> R) (k : nat -> nat) : Prop :=
+  forall u rnd, 0 <= u < 1 -> rnd_rel u rnd ->
+  forall x y, length x = length y -> (1 <= length x)%nat ->
+  exists fl, metric_rnd rnd m x y = Some fl
+             /\ (1 - u) ^ k (length x) * sp x y <= fl <= (1 + u) ^ k (length x) * sp x y
+             /\ Rabs (fl - sp x y) <= ((1 + u) ^ k (length x) - 1) * sp x y.
